@@ -2,11 +2,11 @@ package props
 
 import (
 	"errors"
-	"strings"
 	"fmt"
 	"math"
 	"math/rand/v2"
 	"net/netip"
+	"strings"
 	"time"
 
 	"verifharness/codec"
@@ -486,10 +486,10 @@ func (c05) ID() string     { return "C05" }
 func (c05) Level() string  { return "exploration" }
 func (c05) QuickRuns() int { return 130000 }
 func (c05) Rule() string {
-	return "seeded runs of every variant with arbitrary per-hop delays on the virtual clock (non-monotone, duplicates with larger delay, later probes' replies overtaking earlier ones, production-scale 1-3 s timeouts, send delays from 0 to several poll intervals, in-seam stalls of the sender), plus RunTraceroute requests with end-to-end probes; each reported RTT is compared with (arrival of the first accepted reply) - (hand-off of the same probe), tolerance one observed poll interval; non-trivial = a hop with an RTT was reported; distinct = distinct shapes"
+	return "seeded runs of every variant with arbitrary per-hop delays on the virtual clock (non-monotone, duplicates with larger delay, later probes' replies overtaking earlier ones, production-scale 1-3 s timeouts, send delays from 0 to several poll intervals, in-seam stalls of the sender: a write that blocks before the packet leaves, and a write whose packet leaves at once but that returns to its caller late), plus RunTraceroute requests with end-to-end probes; each reported RTT is compared with (arrival of the first accepted reply) - (hand-off of the same probe), tolerance one observed poll interval; non-trivial = a hop with an RTT was reported; distinct = distinct shapes"
 }
 func (c05) Assumptions() []string {
-	return []string{"hand-off of a probe lies between the call and the return of Sink.WriteTo; arrival is the instant the packet reaches the capture queue", "the poll interval is observed per read (deadline minus the instant it was set), not copied from the code"}
+	return []string{"hand-off of a probe is the call of Sink.WriteTo (a write that blocks before the packet leaves counts towards the round trip); arrival is the instant the packet reaches the capture queue", "the poll interval is observed per read (deadline minus the instant it was set), not copied from the code"}
 }
 
 func (c05) Gen(rng *rand.Rand, tier string, i int) *sim.Scenario {
@@ -501,7 +501,7 @@ func (c05) Gen(rng *rand.Rand, tier string, i int) *sim.Scenario {
 	sc := scenarioFor("C05", rng, []*wireRun{wr})
 	if chance(rng, o.senderStall) {
 		n := wr.call.MaxTTL - wr.call.MinTTL + 1
-		sc.Faults = append(sc.Faults, sim.Fault{Actor: "c0", Op: "write", K: between(rng, 1, n), Class: "stall", Us: int64(pick(rng, 200, 5000, 40000, 250000))})
+		sc.Faults = append(sc.Faults, sim.Fault{Actor: "c0", Op: "write", K: pick(rng, 1, 1, between(rng, 1, n), between(rng, 1, n)), Class: pick(rng, "stall", "stallret"), Us: int64(pick(rng, 200, 5000, 40000, 250000))})
 	}
 	return sc
 }
@@ -535,7 +535,9 @@ func rttViolations(v *EpView, out *sim.Outcome, ri *RunInfo) []Violation {
 		ri.NonTrivial = true
 		pr := v.Ep.Probes[ref.Probe]
 		rtt := time.Duration(math.Round(h.RTT * 1e6))
-		lo := ref.ArriveAt - pr.RelAt - time.Microsecond
+		// the probe is handed to the network when Sink.WriteTo is called (the property's anchor: the
+		// timestamp is taken just before the write); a write that blocks is part of the round trip
+		lo := ref.ArriveAt - pr.CallAt - time.Microsecond
 		hi := ref.ArriveAt - pr.CallAt + ref.PollObs + time.Microsecond
 		dups := 0
 		for _, acc := range v.Fold.Accepted {
@@ -549,13 +551,30 @@ func rttViolations(v *EpView, out *sim.Outcome, ri *RunInfo) []Violation {
 		if pr.RelAt > pr.CallAt {
 			ri.probe("sender-stalled-in-write")
 		}
+		// a reply that reached the capture queue while the goroutine that also does the reading
+		// (serial engine) was held up inside WriteTo cannot be read before that write returns: the
+		// bound is relaxed to that instant, for this hop only
+		var behind *sim.ProbeRec
+		for _, p2 := range v.Ep.Probes {
+			if p2.RetAt > p2.RelAt && p2.RelAt <= ref.ArriveAt && ref.ArriveAt < p2.RetAt {
+				behind = p2
+			}
+		}
+		if behind != nil {
+			ri.probe("reply-arrived-during-blocked-write")
+			if isSerial(v) {
+				if h2 := behind.RetAt - pr.CallAt + ref.PollObs + time.Microsecond; h2 > hi {
+					hi = h2
+				}
+			}
+		}
 		switch {
 		case rtt < lo:
-			vs = append(vs, Violation{Rule: "C05.rtt:below", Detail: fmt.Sprintf("%s: ttl=%d rtt=%v but first accepted reply arrived %v after the probe left (probe call %v, release %v, arrival %v)", v.Ep.Actor, h.TTL, rtt, ref.ArriveAt-pr.RelAt, pr.CallAt, pr.RelAt, ref.ArriveAt),
+			vs = append(vs, Violation{Rule: "C05.rtt:below", Detail: fmt.Sprintf("%s: ttl=%d rtt=%v but the first accepted reply arrived %v after the probe was handed to WriteTo (call %v, write returned %v, arrival %v)", v.Ep.Actor, h.TTL, rtt, ref.ArriveAt-pr.CallAt, pr.CallAt, pr.RelAt, ref.ArriveAt),
 				Facts: facts("variant", variantOf(v))})
 		case rtt > hi:
 			vs = append(vs, Violation{Rule: "C05.rtt:above", Detail: fmt.Sprintf("%s: ttl=%d rtt=%v exceeds (arrival of first accepted reply %v - probe hand-off %v) = %v by more than one poll interval (%v); %d genuine replies were read for this ttl", v.Ep.Actor, h.TTL, rtt, ref.ArriveAt, pr.CallAt, ref.ArriveAt-pr.CallAt, ref.PollObs, dups),
-				Facts: facts("variant", variantOf(v), "cause", rttCause(v, ref, pr, rtt, dups))})
+				Facts: facts("variant", variantOf(v), "cause", rttCause(v, ref, pr, rtt, dups, behind))})
 		}
 	}
 	return vs
@@ -563,11 +582,17 @@ func rttViolations(v *EpView, out *sim.Outcome, ri *RunInfo) []Violation {
 
 // rttCause classifies an over-estimated RTT by what the ledger shows: the reply sat in the capture
 // queue for more than a poll interval before the engine read it ("late-read"), a later duplicate
-// replaced the first accepted reply ("duplicate-overwrote"), or neither.
-func rttCause(v *EpView, ref *oracle.RefHop, pr *sim.ProbeRec, rtt time.Duration, dups int) string {
+// replaced the first accepted reply ("duplicate-overwrote"), the receiver had not started because
+// the first write had not returned, or none of these.
+func rttCause(v *EpView, ref *oracle.RefHop, pr *sim.ProbeRec, rtt time.Duration, dups int, behind *sim.ProbeRec) string {
 	engine := "parallel"
 	if isSerial(v) {
 		engine = "serial"
+	}
+	// the parallel engine's receiver goroutine does not start reading before the first SendProbe has
+	// returned: a reply that arrives while that first write is still blocked waits in the queue
+	if !isSerial(v) && behind != nil && behind.N == 1 && rtt <= behind.RetAt-pr.CallAt+ref.PollObs+time.Microsecond {
+		return "parallel-reader-waits-for-first-send"
 	}
 	if ref.ReadAt-ref.ArriveAt > ref.PollObs && rtt <= ref.ReadAt-pr.CallAt+time.Microsecond {
 		return engine + "-late-read"
